@@ -516,6 +516,7 @@ def r14_zone_pair(ctx):
                     return v
             return None
         problems = []
+        unread = []
         seen_kinds = set()
         for p in paths:
             cz = U(p.value.elts[2])
@@ -547,8 +548,7 @@ def r14_zone_pair(ctx):
                                         "contains '+'" if plus else
                                         "has no '-'"))
                 if sign is None:
-                    problems.append("custom zone %s is not parsed from the "
-                                    "signed zone text" % cz[:50])
+                    unread.append(cz[:60])
                 continue
             if cz != "None":
                 problems.append("custom zone is %s" % cz[:50])
@@ -557,10 +557,17 @@ def r14_zone_pair(ctx):
             if hh is not True and (plus or (minus and plus is not True)):
                 problems.append("a literal %s zone in the format yields no "
                                 "custom zone" % ("+" if plus else "-"))
-        if not {"Z", "+", "-"} <= seen_kinds:
+        if not {"Z", "+", "-"} <= seen_kinds and not unread:
             problems.append("literal zone kinds handled: %s" %
                             sorted(k for k in seen_kinds if k))
-        rep.check(not problems, rule, ctx.fkey(ef, None, "zone-branches"),
+        if unread and not problems:
+            rep.undecided(rule, ctx.fkey(ef, None, "zone-branches"),
+                          ef.loc(), "the sign of the literal zone is a "
+                          "computed value (%s): which formats yield a custom "
+                          "zone is not read by this rule" % unread[0],
+                          P6 + ("C08",))
+        else:
+          rep.check(not problems, rule, ctx.fkey(ef, None, "zone-branches"),
                   ef.loc(),
                   "over %d paths: Z / +... / -... formats yield a custom "
                   "zone, the +hh placeholder and zone-less formats yield "
